@@ -229,6 +229,7 @@ package actor
 //@   ensures appended: result ==> q.size == old(q.size) + 1 && q.head == old(q.head) && q.buf[(q.head+old(q.size))%256] == s
 //@   ensures publishes-the-size-hint: result ==> q.sizeAtomic.v == int32(q.size)
 //@   ensures others-kept: result ==> forall i int :: 0 <= i && i < old(q.size) ==> q.buf[(q.head+i)%256] == old(q.buf[(q.head+i)%256])
+//@   ensures other-rings-untouched: forall p *localQueue :: p != q ==> p.head == old(p.head) && p.tail == old(p.tail) && p.size == old(p.size)
 //@   modifies localQueue.buf, localQueue.tail, localQueue.size, localQueue.sizeAtomic
 
 //@ func (*localQueue).popFront(q)
@@ -239,6 +240,7 @@ package actor
 //@   ensures publishes-the-size-hint: old(q.size) > 0 && old(q.sizeAtomic.v) != 0 ==> q.sizeAtomic.v == int32(q.size)
 //@   ensures hint-zero-takes-nothing: old(q.sizeAtomic.v) == 0 ==> result == nil && q.size == old(q.size) && q.head == old(q.head) && q.buf == old(q.buf)
 //@   ensures rest-kept: forall i int :: 1 <= i && i < old(q.size) ==> q.buf[(old(q.head)+i)%256] == old(q.buf[(old(q.head)+i)%256])
+//@   ensures other-rings-untouched: forall p *localQueue :: p != q ==> p.head == old(p.head) && p.tail == old(p.tail) && p.size == old(p.size)
 //@   modifies localQueue.buf, localQueue.head, localQueue.size, localQueue.sizeAtomic
 
 // stealHalf moves the first k = min(ceil(n/2), 1 + free(dst)) entries of q:
@@ -253,6 +255,7 @@ package actor
 //@   loop 1 invariant moved: forall j int :: 1 <= j && j < i ==> dst.buf[(old(dst.tail)+j-1)%256] == old(q.buf[(q.head+j)%256])
 //@   loop 1 invariant dst-kept: forall j int :: 0 <= j && j < old(dst.size) ==> dst.buf[(dst.head+j)%256] == old(dst.buf[(dst.head+j)%256])
 //@   loop 1 invariant q-rest-kept: forall j int :: i <= j && j < old(q.size) ==> q.buf[(old(q.head)+j)%256] == old(q.buf[(q.head+j)%256])
+//@   loop 1 invariant other-rings-untouched: forall p *localQueue :: p != q && p != dst ==> p.head == old(p.head) && p.tail == old(p.tail) && p.size == old(p.size)
 //@   ensures wf: lq_wf(q) && lq_wf(dst)
 //@   ensures same-queue-or-empty: (q == dst || old(q.size) == 0) ==> result == nil && q.size == old(q.size) && dst.size == old(dst.size)
 //@   ensures returns-oldest: q != dst && old(q.size) > 0 ==> result == old(q.buf[q.head])
@@ -262,6 +265,7 @@ package actor
 //@   ensures moved-in-order: q != dst && old(q.size) > 0 ==> forall j int :: 1 <= j && j < old(q.size) - q.size ==> dst.buf[(old(dst.tail)+j-1)%256] == old(q.buf[(q.head+j)%256])
 //@   ensures dst-kept: q != dst ==> forall j int :: 0 <= j && j < old(dst.size) ==> dst.buf[(dst.head+j)%256] == old(dst.buf[(dst.head+j)%256])
 //@   ensures q-rest-kept: q != dst && old(q.size) > 0 ==> forall j int :: old(q.size) - q.size <= j && j < old(q.size) ==> q.buf[(old(q.head)+j)%256] == old(q.buf[(q.head+j)%256])
+//@   ensures other-rings-untouched: forall p *localQueue :: p != q && p != dst ==> p.head == old(p.head) && p.tail == old(p.tail) && p.size == old(p.size)
 //@   modifies localQueue.buf, localQueue.head, localQueue.tail, localQueue.size, localQueue.sizeAtomic
 
 // global ring (grows by doubling); a zero-length buffer is legal (push grows it first)
